@@ -557,6 +557,14 @@ class GenM:
         n = self.rng.randint(1, 8)
         return "".join(self.rng.choice("abcdefghijklmnopqrstuvwxyz") for _ in range(n))
 
+    def snap(self):
+        return dict(self.cur.const) if self.cur is not None else None
+
+    def restore(self, snap):
+        """a generated expression is discarded: forget the const-ness marks it caused"""
+        if self.cur is not None and snap is not None:
+            self.cur.const = snap
+
     def mark_nonconst(self, ddp):
         """an argument written as a bare parameter name passed to a non-const parameter"""
         m = re.fullmatch(r"v(\d+)", ddp)
@@ -597,8 +605,11 @@ class GenM:
             self.f("M:slice")
             return "(D %s 2)" % a[0], "(%s bis zum 1. Element)" % a[1], True
         if k == "falls":
-            a, b = self.text(d + 1), self.text(d + 1)
+            a = self.text(d + 1)
+            sn = self.snap()
+            b = self.text(d + 1)
             if not a[2] and not b[2]:
+                self.restore(sn)
                 w = self.word()
                 b = ("(L %d)" % (len(w) + 1), '"%s"' % w, True)
             c = self.effects(d + 1)
@@ -627,8 +638,11 @@ class GenM:
             v = rng.choice(self.vars_of("L"))
             return "(V %d)" % v, "v%d" % v, False
         if k == "falls":
-            a, b = self.lst(d + 1), self.lst(d + 1)
+            a = self.lst(d + 1)
+            sn = self.snap()
+            b = self.lst(d + 1)
             if not a[2] and not b[2]:
+                self.restore(sn)
                 x, y = self.text(3), self.text(3)
                 b = ("(B 32 %s %s)" % (x[0], y[0]), "(eine Liste, die aus %s, %s besteht)" % (x[1], y[1]), True)
             c = self.effects(d + 1)
@@ -664,9 +678,11 @@ class GenM:
                 self.f("M:arg-by-Referenz")
             else:
                 for _ in range(8):
+                    sn = self.snap()
                     e = self.text(d + 1) if ty == "T" else self.lst(d + 1)
                     if not any(re.search(r"\bv%d\b" % u, e[1]) for u in used.values()):
                         break
+                    self.restore(sn)
                 else:
                     w = self.word()
                     e = ("(L %d)" % (len(w) + 1), '"%s"' % w, True) if ty == "T" else ("(B 32 (L 2) (L 2))", '(eine Liste, die aus "a", "b" besteht)', True)
@@ -746,10 +762,12 @@ class GenM:
                 return self.stmt(d)
             v = rng.choice(vs)
             for _ in range(10):
+                sn = self.snap()
                 e = self.text() if ty == "T" else self.lst()
                 # not the variable itself (self-assignment is a construct probe) and no self-doubling concatenations
                 if not re.search(r"\bv%d\b" % v, e[1]):
                     break
+                self.restore(sn)
             else:
                 return self.stmt(d)
             if self.cur is not None and v in self.cur.const:
@@ -763,9 +781,11 @@ class GenM:
             v = rng.choice(vs)
             i = rng.randint(1, 2)
             for _ in range(10):
+                sn = self.snap()
                 e = self.text()
                 if not re.search(r"\bv%d\b" % v, e[1]):
                     break
+                self.restore(sn)
             else:
                 return self.stmt(d)
             if self.cur is not None and v in self.cur.const:
@@ -1440,7 +1460,11 @@ def main():
                                         stderr=err[-1200:].decode("utf-8", "replace")))
     if model_bad and not ck.violations:
         what, j, argv = model_bad
-        ck.broken_obligation("correspondence of coq/Lower/Own.v with the compiler fails (%s) at -O %d, tape %s" % (what, j.opt, argv), j.src[-3000:] + "\n" + (j.sx or ""))
+        body = j.src[len(MHEAD):].replace("m" * (MARK1 - 1), "<%d x m>" % (MARK1 - 1)).replace("n" * (MARK2 - 1), "<%d x n>" % (MARK2 - 1))
+        path = os.path.join(ck.replay_dir, "%s_model_mismatch.ddp" % PID)
+        open(path, "w").write(j.src)
+        ck.broken_obligation("correspondence of coq/Lower/Own.v with the compiler fails (%s) at -O %d, tape %s; program saved as %s" % (what, j.opt, argv, path),
+                             (j.sx or "")[-900:] + "\n" + body[-1000:])
     ck.cov.update(dict(
         programs=dict(corpus=corpus_n, probes=len(P), model_shared=nM, random=nA), compile_jobs=len(jobs), **stats,
         features_random_stream=dict(sorted(featA.items())), features_model_stream=dict(sorted(featM.items())),
